@@ -77,8 +77,8 @@ def group_model(grp: dict[str, Any]) -> dict[str, float]:
         "soc": sum(b["soc"] * b["cap"] for b in bats) / cap,
         "lo": sum(b["lo"] * b["cap"] for b in bats) / cap,
         "hi": sum(b["hi"] * b["cap"] for b in bats) / cap,
-        "bat_il": sum(b["il"] for b in bats),
-        "bat_iu": sum(b["iu"] for b in bats),
+        "bat_il": math.fsum(b["il"] for b in bats),  # (exactly rounded sums, as the repaired code uses: order-independent)
+        "bat_iu": math.fsum(b["iu"] for b in bats),
         "bat_el": min(b["el"] for b in bats) * n,
         "bat_eu": max(b["eu"] for b in bats) * n,
     }
@@ -89,10 +89,10 @@ def group_model(grp: dict[str, Any]) -> dict[str, float]:
     m["min_dn"] = max(-m["bat_el"], min(-i["el"] for i in invs))
     m["incl_dn"] = min(sum(-max(i["il"], m["bat_il"]) for i in invs), -m["bat_il"])
     # what the pool advertises for this group (PowerBoundsCalculator semantics)
-    m["adv_il"] = max(m["bat_il"], sum(i["il"] for i in invs))
-    m["adv_iu"] = min(m["bat_iu"], sum(i["iu"] for i in invs))
-    m["adv_el"] = min(m["bat_el"], sum(i["el"] for i in invs))
-    m["adv_eu"] = max(m["bat_eu"], sum(i["eu"] for i in invs))
+    m["adv_il"] = max(m["bat_il"], math.fsum(i["il"] for i in invs))
+    m["adv_iu"] = min(m["bat_iu"], math.fsum(i["iu"] for i in invs))
+    m["adv_el"] = min(m["bat_el"], math.fsum(i["el"] for i in invs))
+    m["adv_eu"] = max(m["bat_eu"], math.fsum(i["eu"] for i in invs))
     m["headroom_up"] = max(0.0, m["hi"] - m["soc"])
     m["headroom_dn"] = max(0.0, m["soc"] - m["lo"])
     return m
@@ -119,8 +119,8 @@ def consistent(case: dict[str, Any]) -> bool:
 
 def advertised(case: dict[str, Any]) -> tuple[float, float, float, float]:
     ms = [group_model(g) for g in case["groups"]]
-    return (sum(m["adv_il"] for m in ms), sum(m["adv_el"] for m in ms),
-            sum(m["adv_eu"] for m in ms), sum(m["adv_iu"] for m in ms))
+    return (math.fsum(m["adv_il"] for m in ms), math.fsum(m["adv_el"] for m in ms),
+            math.fsum(m["adv_eu"] for m in ms), math.fsum(m["adv_iu"] for m in ms))
 
 
 # ---------------------------------------------------------------- generators
